@@ -35,17 +35,29 @@ class PeerProtocol(asyncio.Protocol):
         self.peer = peer
 
     def connection_made(self, transport):
+        self.transport = transport
         self.peer.on_connected(transport)
 
+    def stale(self, what):
+        # events of a connection the peer has already replaced by a newer one (e.g. the slow close of the previous
+        # connection completing late) belong to that old socket, not to the peer's current session
+        if self.peer.tr is not getattr(self, "transport", None):
+            self.peer.sim.rec("peer_stale_" + what, self.peer.name)
+            return True
+        return False
+
     def data_received(self, data):
-        self.peer.on_data(data)
+        if not self.stale("data"):
+            self.peer.on_data(data)
 
     def eof_received(self):
-        self.peer.on_eof()
+        if not self.stale("eof"):
+            self.peer.on_eof()
         return False
 
     def connection_lost(self, exc):
-        self.peer.on_lost(exc)
+        if not self.stale("lost"):
+            self.peer.on_lost(exc)
 
     def pause_writing(self):
         pass
